@@ -31,7 +31,7 @@ RULE = ("quick: for every multiset of <= 4 secrets with timestamps from a collid
         "all 120 orders, more random. non-trivial = some observed bundle holds two secrets with the same timestamp, or the script generates a secret")
 U64MAX = 18446744073709551615
 FUT = 1 << 42
-COQ_SHARD = 200
+COQ_SHARD = 40
 
 
 def _kid(seed):
@@ -75,7 +75,7 @@ def gen(tier, rng):
     for n in range(1, 5 if quick else 6):
         combos = list(itertools.combinations_with_replacement(sorted(set(pal + [7])), n))
         if n == 5:
-            combos = [c for c in combos if len(set(c)) <= 3]
+            combos = [c for c in combos if len(set(c)) <= 3][::4]
         for tss in combos:
             seeds = list(range(100 + n * 10, 100 + n * 10 + n))
             rng.shuffle(seeds)
